@@ -158,6 +158,9 @@ def run_C18(repo, tier, seed):
         for et, kappa in ((4.0, 0.0), (0.0, 2.36e-3), (3.1, 1.0e-3)):
             case = {"zeta_grid_mm": grid.tolist(), "et_mm_d": et, "curvature_km": kappa}
             try:
+                t0 = m["simulate_recession"].compute_recession_curve(sy, T, grid, 0.0, kappa, et)
+                if abs(t0.mean()) > 1e-9:
+                    failures.append({"key": "mean", "input": dict(case, mean=0.0), "observed": "mean %r, requested 0.0" % t0.mean()})
                 t = m["simulate_recession"].compute_recession_curve(sy, T, grid, 19.0, kappa, et)
             except Exception as e:
                 failures.append({"key": "raised", "input": case, "observed": "%s: %s" % (type(e).__name__, e)})
